@@ -385,6 +385,9 @@ var provocations = []string{
 		"send [USD 10] (\n source = { @a @a }\n destination = { 1/2 to @a 1/2 to @b remaining to @c }\n)\n" +
 		"send @a (\n source = @a\n destination = { $p to @a }\n)\nfoo(1)\nset_tx_meta(\"k\")\nset_tx_meta(1 + @a, [USD 1] - 2)\n",
 	"send [USD 1] (",
+	// (allotments whose only unknown is one portion variable: the checker computes what it must be worth)
+	"vars {\n portion $p\n}\nsend [USD 9] (\n source = @a\n destination = { 1/3 to @b $p to @c }\n)\nsend [USD 9] (\n source = { 1/4 from @a 1/4 from @b $p from @c }\n destination = @d\n)\n" +
+		"send [USD 9] (\n source = @a\n destination = { 3/10 to @b 10% to @c $p to @d }\n)\n",
 	"vars { account $x = meta($x, \"k\") bogus $y }\nsave [USD *] from $y\nsend [EUR 2] (source = { remaining from @a 1/2 from @b } destination = @c)\n",
 }
 var provokeOnce sync.Once
